@@ -239,7 +239,7 @@ func init() {
 			case 2:
 				// a bundled component between command processes: Run must return
 				var kind string
-				w, kind = componentCase(c)
+				w, kind = componentCaseWellFormed(c)
 				if kind == "splitter" || kind == "concat" {
 					// (their consumers are not predicted by the reference: liveness only)
 					c.Sample = kind + ": " + sample(w)
